@@ -418,6 +418,8 @@ async fn dgram_send(a: &[String]) -> Vec<String> {
         arg(a, 2).split(',').map(|s| s.to_string()).collect()
     };
     let seed = arg_u64(a, 3);
+    // optional: the id of the session (default 0)
+    let send_sid: u64 = arg(a, 4).parse().unwrap_or(0);
     let rt = match TestRt::new(arg(a, 0)) {
         Ok(rt) => rt,
         Err(e) => return vec![format!("error={e}")],
@@ -531,7 +533,7 @@ async fn dgram_send(a: &[String]) -> Vec<String> {
     let mut buckets: Vec<Arc<Mutex<Vec<Vec<u8>>>>> = vec![];
     let mut raw_err: Option<String> = None;
     while let Some(()) = need_rx.recv().await {
-        match RawClient::session(port, &opts).await {
+        match RawClient::session_on(port, &opts, send_sid).await {
             Ok(c) => {
                 let got: Arc<Mutex<Vec<Vec<u8>>>> = Arc::new(Mutex::new(vec![]));
                 let got2 = got.clone();
@@ -636,7 +638,8 @@ async fn dgram_recv(a: &[String]) -> Vec<String> {
         }
         Ok((recv, then, conn))
     });
-    let client = match RawClient::session(port, &RawOpts::default()).await {
+    let live_sid: u64 = arg(a, 2).parse().unwrap_or(0);
+    let client = match RawClient::session_on(port, &RawOpts::default(), live_sid).await {
         Ok(c) => c,
         Err(e) => {
             app.abort();
@@ -1053,6 +1056,25 @@ fn gen_c03(thorough: bool, rng: &mut Rng, emit: &mut dyn FnMut(&str, Vec<String>
         );
     }
 
+    // sessions whose id is not 0 (12: quarter id 3; 280: quarter id 70, a two-byte header)
+    for (sid, limit) in [(12u64, "1200"), (280, "1200"), (280, "64"), (12, "2"), (280, "2"), (280, "1")] {
+        for rt in RTS {
+            emit(
+                "dgram.send",
+                vec![s(rt), s(limit), s("0,1,max-1,max,max+1,max+2"), s(rng.below(1_000_000)), s(sid)],
+            );
+        }
+    }
+    for (items, sid) in [
+        ("00aa,03bb,4046cc,03", 12u64),
+        ("03aa,4003bb,80000003cc,c000000000000003dd,02ee", 12),
+        ("00aa,03bb,4046cc,40460102,4046", 280),
+        ("80000046aa,c000000000000046bb,4045cc,4047dd", 280),
+    ] {
+        for rt in RTS {
+            emit("dgram.recv", vec![s(rt), s(items), s(sid)]);
+        }
+    }
     // dgram.recv
     let fixed: [&str; 13] = [
         "00aabb",
